@@ -263,7 +263,8 @@ C_Call ==   \* Scan(): Start if needed, precheck, then Next() up to its first ch
 C_Header == \* Header(): Start if needed
   /\ cfg.allowHeader /\ cpc = "idle" /\ ~started
   /\ StartPipe /\ sErr' = HdrErr
-  /\ UNCHANGED << cfg, cancelled, parentCancelled, cpc, cData, cIndex, pOff, cOff, closed, delivered, lastScan, hist >>
+  /\ hist' = Append(hist, [op |-> "hdr", class |-> HdrErr])
+  /\ UNCHANGED << cfg, cancelled, parentCancelled, cpc, cData, cIndex, pOff, cOff, closed, delivered, lastScan >>
 
 TermErr == IF cData.err # Nil THEN cData.err
            ELSE IF cfg.sepErr /\ tErr # Nil THEN tErr ELSE "eof"
@@ -403,6 +404,7 @@ ScanEnds == [](cpc = "recv" => <>(cpc = "idle"))
 (*   [op |-> "call"]                      Scan called                                                              *)
 (*   [op |-> "ret", ok, blk, idx, cur, prev]   Scan returned (object <<blk, idx>>; offsets as reported afterwards) *)
 (*   [op |-> "err", class]                Err() returned a value of that class                                     *)
+(*   [op |-> "hdr", class]                Header() returned with an error of that class ("nil" = none, "eof" = empty input) *)
 (*   [op |-> "close"] / [op |-> "closed"] Close called / returned                                                  *)
 (*   [op |-> "cancel"]                    the caller's context was cancelled (atomic)                              *)
 (*   [op |-> "cancel.b"] / [op |-> "cancel.e"]  cancel() called / returned in another goroutine                    *)
@@ -445,8 +447,10 @@ AllDelivered(c, H) == ObjsOf(TrueRets(H, Len(H) + 1)) = ExpectedOf(c)
 HErrOK(c, H) ==
   \A i \in Idx(H, {"err"}) :
      LET cls == ErrCls(H[i].class)
-         natural == \E j \in Rets(H) : j < i /\ j < StopBegin(H) /\ ~H[j].ok     \* ended by itself before any stop
-         ended   == \E j \in Rets(H) : j < i /\ ~H[j].ok
+         hdrEnd(j) == H[j].op = "hdr" /\ H[j].class # "nil"                      \* Header() already recorded the end / an error
+         natural == \/ \E j \in Rets(H) : j < i /\ j < StopBegin(H) /\ ~H[j].ok  \* ended by itself before any stop
+                    \/ \E j \in 1 .. i - 1 : j < StopBegin(H) /\ hdrEnd(j)
+         ended   == (\E j \in Rets(H) : j < i /\ ~H[j].ok) \/ (\E j \in 1 .. i - 1 : hdrEnd(j))
          closeB  == \E j \in 1 .. i : H[j].op = "close"
          cancelB == \E j \in 1 .. i : H[j].op \in {"cancel", "cancel.b"}
      IN IF natural
